@@ -34,12 +34,12 @@
                         from the Rust source by the translator;
      C01_evaluator_*    see the end of this file for the evaluator level. *)
 From Clvm Require Import Model.Dialect Model.RefClvm Proofs.RefClvmBasics Proofs.RefClvmUnknown
-  Proofs.RefClvmDispatch Proofs.RefClvmCosts Proofs.UnknownProofs Proofs.RefClvmEval.
+  Proofs.RefClvmDispatch Proofs.RefClvmCosts Proofs.UnknownProofs Proofs.RefClvmEval Proofs.RefClvmSound.
 Open Scope N_scope.
 
 Theorem C01_operators : forall (P : prims) dom ext opc args M,
   ext <> OsPreHardFork ->
-  M < two64 ->
+  (classic_code opc = false -> M < two64) ->
   (classic_code opc = false -> ~ wraps64 opc (arg_lens args) false M) ->
   (forall b, In (Atom b) (items args) -> blen b < 2147483648) ->
   ref_op (p_sha256 P) current_adapters dom (ext_kec ext) opc (items args) (ending args) <> Err Unsupported ->
@@ -70,6 +70,25 @@ Theorem C01_refines_complete : forall (P : prims) dom fuel p e max_cost r,
   ref_run (p_sha256 P) current_adapters dom fuel p e max_cost = Ok r ->
   exists fuel', run_chia P fuel' 0 p e max_cost = Ok r.
 Proof. exact ref_run_complete. Qed.
+
+(* the other direction: whenever run_program succeeds, the reference succeeds with the same cost
+   and tree, unless it meets an operator application outside the compared domain *)
+Theorem C01_refines_sound : forall (P : prims) dom p e max_cost r,
+  dom_sound dom -> max_cost < two64 ->
+  (exists fuel, run_chia P fuel 0 p e max_cost = Ok r) ->
+  exists fuel, ref_run (p_sha256 P) current_adapters dom fuel p e max_cost = Err Unsupported \/
+               ref_run (p_sha256 P) current_adapters dom fuel p e max_cost = Ok r.
+Proof. exact ref_run_sound. Qed.
+
+(* C01: on classic programs (the reference never answers Unsupported) the interpreter and the
+   reference succeed on the same inputs, with the same cost and result tree; hence one fails
+   exactly when the other does *)
+Theorem C01_refines : forall (P : prims) dom p e max_cost r,
+  dom_sound dom -> max_cost < two64 ->
+  (forall fuel, ref_run (p_sha256 P) current_adapters dom fuel p e max_cost <> Err Unsupported) ->
+  ((exists fuel, run_chia P fuel 0 p e max_cost = Ok r) <->
+   (exists fuel, ref_run (p_sha256 P) current_adapters dom fuel p e max_cost = Ok r)).
+Proof. exact ref_run_refines. Qed.
 
 Theorem C01_dom_classic_sound : dom_sound dom_classic.
 Proof. exact dom_classic_sound. Qed.
@@ -102,5 +121,7 @@ Print Assumptions C01_unknown_rule.
 Print Assumptions C01_costs_literal.
 Print Assumptions C01_witness.
 Print Assumptions C01_refines_complete.
+Print Assumptions C01_refines_sound.
+Print Assumptions C01_refines.
 Print Assumptions C01_dom_classic_sound.
 Print Assumptions C01_refines_witness.
